@@ -2,6 +2,7 @@
 from props import cells
 
 RULE = ('the 14 fuzzy-producing commands with thresholds, weights, category, curve and z-score values far outside [-1, 1] (weights up to 100, values up to 16x the lattice), masked and unmasked arrays of rank 1-3; unmasked result cells checked against [-1, 1] exactly and against the Coq model. non-trivial = distinct case (every case drives parameters or inputs out of range)')
+RULE += (' Every stream also has a stratified part: each command once per unusual element type (uint64 as the NetCDF reader returns for Positive Integer, uint8, int16), weighted commands with a weight of exactly 0 next to a cell missing only in that input, nine to twelve input layers, the same result mentioned twice, inputs re-laid in memory (Fortran order, transposed / reversed / strided views), B written before A, a Metadata argument on every third run. Fuzzy inputs are checked again after their consumer has run; a floating-point stream with decimal data lying on control points.')
 TRUSTED = ["exact reference evaluator in drivers/cells_common.py (written from the property statements and the user documentation)",
            "numpy.ma.std enters the model as the oracle sigma (checked against the exact variance to 2^-20 relative)"]
 ASSUMPTIONS = ["exact rational arithmetic; IEEE rounding is absorbed by the tolerance 2^-36 relative; nan/inf results are not printable into Coq and are judged by the oracle only"]
